@@ -14,12 +14,12 @@ import OdfModel.Props.C05Extras
 namespace OdfModel.Props.C05
 open OdfModel OdfModel.Xml OdfModel.LoadSax OdfModel.Props.C04
 
-/-! ### `__fixXmlPart` (as of fix 4cb8050) -/
+/-! ### `__fixXmlPart` (as of fixes 4cb8050, 692b8c3, e859a9c) -/
 
 /-- the document element's start tag (up to its first `>` outside quoted values) declares every requested prefix, with any white space
     in front of `xmlns:` and around `=` -/
 def DeclaresInRoot (x : Str) : Prop :=
-  ∀ e, findRootEnd x 0 = some e → ∀ p ∈ requested, declares p (rootTagText x e) = true
+  ∀ e, findRootEnd x = some e → ∀ p ∈ requested, declares p (rootTagText x e) = true
 
 theorem foldl_fixStep_id (tag : Str) (e : Nat) (ps : List Str) (h : ∀ p ∈ ps, declares p tag = true) (r : Str) :
     ps.foldl (fixStep tag e) r = r := by
@@ -35,13 +35,113 @@ theorem foldl_fixStep_id (tag : Str) (e : Nat) (ps : List Str) (h : ∀ p ∈ ps
     white space separates the declarations. -/
 theorem fix_identity (x : Str) (h : DeclaresInRoot x) : fixXmlPart x = x := by
   unfold fixXmlPart
-  cases hr : findRootEnd x 0 with
+  cases hr : findRootEnd x with
   | none => rfl
   | some e => exact foldl_fixStep_id _ e requested (h e hr) x
 
 /-- a text in which no element start is found is not touched either -/
-theorem fix_no_root (x : Str) (h : findRootEnd x 0 = none) : fixXmlPart x = x := by
+theorem fix_no_root (x : Str) (h : findRootEnd x = none) : fixXmlPart x = x := by
   unfold fixXmlPart; rw [h]
+
+/-! #### the function only ever inserts INSIDE the root start tag (fix e859a9c) -/
+
+theorem length_takeWhile_le (p : Cp → Bool) : (l : Str) → (l.takeWhile p).length ≤ l.length
+  | [] => by simp
+  | c :: r => by
+    have := length_takeWhile_le p r
+    by_cases h : p c = true <;> simp [List.takeWhile_cons, h] <;> omega
+
+theorem rootEndAt_bounds (x : Str) (k e : Nat) (h : rootEndAt x k = some e) : k + 2 ≤ e ∧ e ≤ x.length := by
+  unfold rootEndAt at h
+  split at h
+  · rename_i d r hd
+    split at h
+    · rename_i hc
+      cases h
+      have hlen : (x.drop k).length = (d :: r).length + 1 := by rw [hd]; rfl
+      have htw : ((d :: r).takeWhile isRootNameCh).length ≤ (d :: r).length := length_takeWhile_le _ _
+      have hpos : 1 ≤ ((d :: r).takeWhile isRootNameCh).length := by
+        have hdn : isRootNameCh d = true := by
+          simp only [Bool.and_eq_true] at hc; exact hc.2
+        simp [hdn]
+      have hk : (x.drop k).length = x.length - k := List.length_drop
+      constructor
+      · omega
+      · omega
+    · cases h
+  · cases h
+
+/-- what the loop does to the text: everything it adds stands at offset `e` -/
+theorem foldl_fixStep_splice (tag x : Str) (e : Nat) (he : e ≤ x.length) (ps : List Str) (ins : Str) :
+    ∃ ins', ps.foldl (fixStep tag e) (x.take e ++ ins ++ x.drop e) = x.take e ++ ins' ++ x.drop e := by
+  induction ps generalizing ins with
+  | nil => exact ⟨ins, rfl⟩
+  | cons p ps ih =>
+    simp only [List.foldl_cons]
+    by_cases hd : declares p tag = true
+    · simp only [fixStep, hd, if_true]; exact ih ins
+    · have hl : (x.take e).length = e := by simp [List.length_take, he]
+      have h1 : (x.take e ++ ins ++ x.drop e).take e = x.take e := by
+        rw [List.append_assoc, List.take_append_of_le_length (by omega), List.take_of_length_le (by omega)]
+      have h2 : (x.take e ++ ins ++ x.drop e).drop e = ins ++ x.drop e := by
+        rw [List.append_assoc, List.drop_append_of_le_length (by omega), List.drop_of_length_le (by omega)]
+        simp
+      have : fixStep tag e (x.take e ++ ins ++ x.drop e) p = x.take e ++ (toInsert p ++ ins) ++ x.drop e := by
+        simp only [fixStep, hd]; rw [h1, h2]; simp [List.append_assoc]
+      rw [this]; exact ih (toInsert p ++ ins)
+
+/-- **C05 / C13 (fix_inserts_in_root_tag)**: either the text is returned as it is, or the document element's name ends at
+    `e`, at least two characters (`<` and one name character) behind the prolog, and the result is the input with text
+    inserted at `e` — behind the element name, inside the root start tag — and nowhere else. -/
+theorem fix_inserts_in_root_tag (x : Str) :
+    fixXmlPart x = x ∨ ∃ e ins, findRootEnd x = some e ∧ prologLen x + 2 ≤ e ∧ e ≤ x.length ∧
+      fixXmlPart x = x.take e ++ ins ++ x.drop e := by
+  unfold fixXmlPart
+  cases hr : findRootEnd x with
+  | none => exact Or.inl rfl
+  | some e =>
+    right
+    obtain ⟨h1, h2⟩ := rootEndAt_bounds x (prologLen x) e hr
+    obtain ⟨ins, hi⟩ := foldl_fixStep_splice (rootTagText x e) x e h2 requested []
+    refine ⟨e, ins, rfl, h1, h2, ?_⟩
+    simpa using hi
+
+/-- **C05 / C13 (fix_prolog_untouched)**: the result agrees with the input on the whole prolog — everything in front
+    of the document element's start tag: XML declaration, comments, processing instructions, the DOCTYPE with its
+    internal subset — and on the `<` and the first name character behind it.  For EVERY text (`prologLen` is Python's
+    match of the prolog regex, well-formed prolog or not). -/
+theorem fix_prolog_untouched (x : Str) :
+    (fixXmlPart x).take (prologLen x + 2) = x.take (prologLen x + 2) := by
+  rcases fix_inserts_in_root_tag x with h | ⟨e, ins, _, h1, h2, h⟩
+  · rw [h]
+  · have hl : (x.take e).length = e := by simp [List.length_take, h2]
+    rw [h, List.append_assoc, List.take_append_of_le_length (by omega), List.take_take]
+    congr 1; omega
+
+/-- the same, for any shorter prefix -/
+theorem fix_prolog_untouched_le (x : Str) (k : Nat) (hk : k ≤ prologLen x + 2) :
+    (fixXmlPart x).take k = x.take k := by
+  have h := congrArg (List.take k) (fix_prolog_untouched x)
+  simpa [List.take_take, Nat.min_eq_left hk] using h
+
+/-- … and nothing behind the element name is touched either: the rest of the input follows the inserted text -/
+theorem fix_rest_untouched (x : Str) (e : Nat) (h : findRootEnd x = some e) :
+    ∃ ins, (fixXmlPart x).drop e = ins ++ x.drop e := by
+  rcases fix_inserts_in_root_tag x with hid | ⟨e', ins, he, _, h2, hx⟩
+  · exact ⟨[], by rw [hid]; rfl⟩
+  · rw [h] at he; cases he
+    have hl : (x.take e).length = e := by simp [List.length_take, h2]
+    exact ⟨ins, by rw [hx, List.append_assoc, List.drop_append_of_le_length (by omega), List.drop_of_length_le (by omega)]; simp⟩
+
+/-- the seeded change that exposed the defect: an entity literal with a `<b` inside the internal subset -/
+def w5 : Str := [60, 33, 68, 79, 67, 84, 89, 80, 69, 32, 120, 32, 91, 60, 33, 69, 78, 84, 73, 84, 89, 32, 97, 32, 34, 60, 98, 62, 69, 88, 80, 60, 47, 98, 62, 34, 62, 93, 62, 60, 114, 47, 62]
+
+/-- `<!DOCTYPE x [<!ENTITY a "<b>EXP</b>">]><r/>`: the prolog is the whole DOCTYPE (39 characters), the document element is
+    `r`, not the `b` of the literal, and the nine declarations go behind `<r` -/
+theorem fix_w5_root_behind_doctype :
+    prologLen w5 = 39 ∧ findRootEnd w5 = some 41 ∧ (fixXmlPart w5).take 41 = w5.take 41 ∧
+      (fixXmlPart w5).length = w5.length + (requested.map (fun p => (toInsert p).length)).sum := by
+  decide +kernel
 
 /-! #### a scanner for the attribute names of the first start tag (specification side, any XML white space) -/
 
@@ -130,7 +230,7 @@ def w3 : Str := [60, 63, 120, 109, 108, 32, 118, 101, 114, 115, 105, 111, 110, 6
 /-- non-vacuity of `fix_identity` -/
 example : DeclaresInRoot w3 := by
   intro e he p hp
-  have : findRootEnd w3 0 = some 58 := by decide +kernel
+  have : findRootEnd w3 = some 58 := by decide +kernel
   rw [this] at he; cases he
   revert p; decide +kernel
 
